@@ -31,7 +31,7 @@ import (
 
 const (
 	c26NH  = 3
-	c26NP  = 6
+	c26NP  = 60
 	c26NO  = 3
 	c26NIP = 4
 )
@@ -96,20 +96,38 @@ func c26PeerTok(p *core.PeerInfo) string {
 	return fmt.Sprintf("%s:%s:%d:%s:%s", id, ip, p.Port, verifh.Bool(p.Origin), verifh.Bool(p.Complete))
 }
 
-// c26ParsePeer parses an origin token `o<j>:ip<k>:<port>:1:<c>`.
-func c26ParseOrigin(tok string) (*core.PeerInfo, bool) {
+// c26ParseInfo parses a peer token `p<j>|o<j>:ip<k>:<port>:<origin>:<complete>`.
+func c26ParseInfo(tok string) (*core.PeerInfo, bool) {
 	f := strings.Split(tok, ":")
-	if len(f) != 5 || !strings.HasPrefix(f[0], "o") || !strings.HasPrefix(f[1], "ip") || f[3] != "1" {
+	if len(f) != 5 || len(f[0]) < 2 || !strings.HasPrefix(f[1], "ip") {
 		return nil, false
 	}
 	j, err1 := strconv.Atoi(f[0][1:])
 	k, err2 := strconv.Atoi(f[1][2:])
 	port, err3 := strconv.Atoi(f[2])
-	if err1 != nil || err2 != nil || err3 != nil || j < 0 || j >= c26NO || k < 0 || k >= c26NIP || port < 0 ||
-		(f[4] != "0" && f[4] != "1") {
+	if err1 != nil || err2 != nil || err3 != nil || j < 0 || k < 0 || k >= c26NIP || port < 0 ||
+		(f[3] != "0" && f[3] != "1") || (f[4] != "0" && f[4] != "1") {
 		return nil, false
 	}
-	return core.NewPeerInfo(c26Origins[j], c26IP(k), port, true, f[4] == "1"), true
+	var id core.PeerID
+	switch {
+	case f[0][0] == 'p' && j < c26NP:
+		id = c26Peers[j]
+	case f[0][0] == 'o' && j < c26NO:
+		id = c26Origins[j]
+	default:
+		return nil, false
+	}
+	return core.NewPeerInfo(id, c26IP(k), port, f[3] == "1", f[4] == "1"), true
+}
+
+// c26ParseOrigin parses an origin token (origin flag set; the id may be an agent's: an origin that also announces).
+func c26ParseOrigin(tok string) (*core.PeerInfo, bool) {
+	p, ok := c26ParseInfo(tok)
+	if !ok || !p.Origin {
+		return nil, false
+	}
+	return p, true
 }
 
 // static origin store: the same origins for every blob
@@ -120,6 +138,20 @@ func (s c26OriginStore) GetOrigins(core.Digest) ([]*core.PeerInfo, error) {
 	var out []*core.PeerInfo
 	for _, o := range s.origins {
 		c := *o
+		out = append(out, &c)
+	}
+	return out, nil
+}
+
+// stub peer store: GetPeers answers with whatever the current op scripted (fresh objects)
+type c26StubStore struct{ answer []*core.PeerInfo }
+
+func (s *c26StubStore) Close()                                         {}
+func (s *c26StubStore) UpdatePeer(core.InfoHash, *core.PeerInfo) error { return nil }
+func (s *c26StubStore) GetPeers(core.InfoHash, int) ([]*core.PeerInfo, error) {
+	var out []*core.PeerInfo
+	for _, p := range s.answer {
+		c := *p
 		out = append(out, &c)
 	}
 	return out, nil
@@ -138,10 +170,8 @@ func c26Exec(tr *verifh.T, c verifh.Case) {
 		case t == "policy=completeness":
 			policy = "completeness"
 		case strings.HasPrefix(t, "origins="):
-			seen := map[core.PeerID]bool{}
 			for _, ot := range verifh.Unlist(t[8:]) {
-				if o, ok := c26ParseOrigin(ot); ok && !seen[o.PeerID] {
-					seen[o.PeerID] = true
+				if o, ok := c26ParseOrigin(ot); ok {
 					origins = append(origins, o)
 					originToks = append(originToks, c26PeerTok(o))
 				}
@@ -157,27 +187,50 @@ func c26Exec(tr *verifh.T, c verifh.Case) {
 	srv := trackerserver.New(trackerserver.Config{PeerHandoutLimit: limit}, tally.NoopScope, pol, ps,
 		c26OriginStore{origins}, nil)
 	handler := srv.Handler()
+	stub := &c26StubStore{}
+	stubHandler := trackerserver.New(trackerserver.Config{PeerHandoutLimit: limit}, tally.NoopScope, pol, stub,
+		c26OriginStore{origins}, nil).Handler()
 	tr.Cfg(fmt.Sprintf("limit=%d", limit), "policy="+policy, "origins="+verifh.List(originToks))
 	for _, op := range c.Ops {
-		if len(op) != 9 || op[0] != "op" || op[1] != "ann" {
+		if len(op) < 2 || op[0] != "op" || !((op[1] == "ann" && len(op) == 9) || (op[1] == "sann" && len(op) == 10)) {
 			continue
 		}
-		h, err1 := strconv.Atoi(strings.TrimPrefix(op[2], "h"))
+		h := handler
+		if op[1] == "sann" {
+			var ans []*core.PeerInfo
+			okAll := true
+			var toks []string
+			for _, t := range verifh.Unlist(op[9]) {
+				p, ok := c26ParseInfo(t)
+				if !ok {
+					okAll = false
+					break
+				}
+				ans = append(ans, p)
+				toks = append(toks, c26PeerTok(p))
+			}
+			if !okAll || verifh.List(toks) != op[9] {
+				continue
+			}
+			stub.answer = ans
+			h = stubHandler
+		}
+		hi, err1 := strconv.Atoi(strings.TrimPrefix(op[2], "h"))
 		p, err2 := strconv.Atoi(strings.TrimPrefix(op[3], "p"))
 		ip, err3 := strconv.Atoi(strings.TrimPrefix(op[4], "ip"))
 		port, err4 := strconv.Atoi(op[5])
 		if err1 != nil || err2 != nil || err3 != nil || err4 != nil || !strings.HasPrefix(op[2], "h") ||
 			!strings.HasPrefix(op[3], "p") || !strings.HasPrefix(op[4], "ip") ||
-			h < 0 || h >= c26NH || p < 0 || p >= c26NP || ip < 0 || ip >= c26NIP || port < 0 ||
+			hi < 0 || hi >= c26NH || p < 0 || p >= c26NP || ip < 0 || ip >= c26NIP || port < 0 ||
 			(op[6] != "0" && op[6] != "1") || (op[7] != "0" && op[7] != "1") || (op[8] != "v1" && op[8] != "v2") {
 			continue
 		}
 		run := func() {
-			d := c26Digests[h]
+			d := c26Digests[hi]
 			body, err := json.Marshal(&announceclient.Request{
 				Name:     d.Hex(),
 				Digest:   &d,
-				InfoHash: c26Hashes[h],
+				InfoHash: c26Hashes[hi],
 				Peer:     core.NewPeerInfo(c26Peers[p], c26IP(ip), port, op[7] == "1", op[6] == "1"),
 			})
 			if err != nil {
@@ -187,10 +240,10 @@ func c26Exec(tr *verifh.T, c verifh.Case) {
 			if op[8] == "v1" {
 				req = httptest.NewRequest("GET", "/announce", bytes.NewReader(body))
 			} else {
-				req = httptest.NewRequest("POST", "/announce/"+c26Hashes[h].Hex(), bytes.NewReader(body))
+				req = httptest.NewRequest("POST", "/announce/"+c26Hashes[hi].Hex(), bytes.NewReader(body))
 			}
 			rec := httptest.NewRecorder()
-			handler.ServeHTTP(rec, req)
+			h.ServeHTTP(rec, req)
 			if rec.Code != 200 {
 				tr.Op(op[1:], strconv.Itoa(rec.Code))
 				return
@@ -284,6 +337,61 @@ func TestVerif_C26(t *testing.T) {
 		}
 		c26Exec(tr, verifh.Case{Cfg: cfg, Ops: ops})
 		tr.Count("random_cases", 1)
+	}
+	// (d) large handouts (more than 12 entries: sort.Slice leaves its stable insertion-sort path), up
+	// to and beyond the default limit of 50
+	rb := verifh.NewRand(verifh.Seed(), "c26-big")
+	for i := 0; i < verifh.Scale(24, 600); i++ {
+		cfg := []string{"limit=" + rb.Pick("0", "0", "20", "60"), "policy=" + rb.Pick("completeness", "completeness", "default"),
+			c26OriginsCfg(rb, 1+rb.Intn(c26NO))}
+		np := 14 + rb.Intn(c26NP-14)
+		var ops [][]string
+		for _, p := range rb.Perm(np) {
+			ops = append(ops, c26Ann(0, p, rb.Intn(c26NIP), rb.Intn(4), rb.Chance(1, 2), false, 2))
+		}
+		for j := 0; j < 4; j++ {
+			ops = append(ops, c26Ann(0, rb.Intn(np), rb.Intn(c26NIP), rb.Intn(4), false, false, 1+rb.Intn(2)))
+		}
+		c26Exec(tr, verifh.Case{Cfg: cfg, Ops: ops})
+		tr.Count("big_cases", 1)
+	}
+	// (e) scripted store answers through the stub peer store: the announcer under another endpoint or
+	// flag, the same id twice, origins that are also agents, 0..40 entries
+	rs := verifh.NewRand(verifh.Seed(), "c26-stub")
+	for i := 0; i < verifh.Scale(500, 20000); i++ {
+		var origs []string
+		for j := rs.Intn(4); j > 0; j-- {
+			if rs.Chance(1, 4) {
+				origs = append(origs, fmt.Sprintf("p%d:ip%d:%d:1:1", rs.Intn(6), rs.Intn(c26NIP), rs.Intn(3))) // an origin that also announces
+			} else {
+				origs = append(origs, fmt.Sprintf("o%d:ip%d:%d:1:%s", rs.Intn(c26NO), rs.Intn(c26NIP), rs.Intn(3), verifh.Bool(rs.Chance(3, 4))))
+			}
+		}
+		cfg := []string{"limit=" + rs.Pick("0", "3", "50"), "policy=" + rs.Pick("completeness", "completeness", "default"),
+			"origins=" + verifh.List(origs)}
+		var ops [][]string
+		for k := 1 + rs.Intn(4); k > 0; k-- {
+			src := rs.Intn(6)
+			n := rs.Intn(8)
+			if rs.Chance(1, 3) {
+				n = 13 + rs.Intn(28)
+			}
+			nid := 1 + rs.Intn(20)
+			var l []string
+			for j := 0; j < n; j++ {
+				id := rs.Intn(nid)
+				if rs.Chance(1, 6) {
+					id = src // the announcer as the store holds it: maybe another endpoint or flag
+				}
+				l = append(l, fmt.Sprintf("p%d:ip%d:%d:0:%s", id, rs.Intn(c26NIP), rs.Intn(3), verifh.Bool(rs.Chance(1, 2))))
+			}
+			op := c26Ann(rs.Intn(2), src, rs.Intn(c26NIP), rs.Intn(3), rs.Chance(1, 5), false, 1+rs.Intn(2))
+			op[1] = "sann"
+			ops = append(ops, append(op, verifh.List(l)))
+			tr.Count("stub_op_sann", 1)
+		}
+		c26Exec(tr, verifh.Case{Cfg: cfg, Ops: ops})
+		tr.Count("stub_cases", 1)
 	}
 	// (c) malformed stream
 	rm := verifh.NewRand(verifh.Seed(), "c26-malformed")
